@@ -1,4 +1,7 @@
 import Cppcms.C17.Lemmas
+import Cppcms.C17.TimerLemmas
+import Cppcms.C17.Progress
+import Cppcms.C17.PoolFair
 import Cppcms.C17.Spec
 /-!
 # C17 — property theorems
@@ -287,5 +290,234 @@ theorem invoked_or_pending_partial (as : List Act) (h : Nat) (hn : NoDoubleArm i
 
 example : NoDoubleArm init [.op (.setIo (some 3) .rd true .sysErr), .loop {}, .loop {}, .loop {}, .op (.setIo (some 3) .wr true .sysErr)] := by
   simp [NoDoubleArm, DoubleArmAt, step, opStep, loopStep, init, push, execItem, setterBody, ioGet, ioSet]
+
+
+/-! ## with which code: success only when the event happened, `canceled` when cancelled first -/
+
+/-- **A timer never fires early.** After any history, every log entry that records a timer handler
+(deadline `d`) invoked with success carries a clock value ≥ `d`; `clock` is the largest `ptime::now()`
+that `run_one` had read before the invocation (with a monotone clock: the invocation is not before the
+deadline).  Posted handlers and I/O handlers are of a different kind and cannot be confused with it. -/
+theorem timer_not_early (as : List Act) (e : LogEntry) (d : Nat)
+    (he : e ∈ (run init as).log) (hk : e.tok.kind = .timer d) (hc : e.code = .ok) : d ≤ e.clock :=
+  (TInv_run as init TInv_init).l e he d hk hc
+
+/-- … and in every reachable state `run_one`'s expiry step queues **every** due timer (the table is sorted,
+so the prefix it takes is all of them), each with success. -/
+theorem due_timer_queued (as : List Act) (i : LoopInp) (t : Timer)
+    (ht : t ∈ (run init as).timers) (hd : t.deadline ≤ i.now) (hs : (run init as).stop = false) :
+    QItem.ev t.tok .ok 0 ∈ (loopStep.afterDrain (run init as) i).queue := by
+  have hsorted := (TInv_run as init TInv_init).sorted
+  have hdue := due_complete i.now _ hsorted t ht hd
+  unfold loopStep.afterDrain
+  simp only [hs, Bool.false_eq_true, if_false, List.mem_append, List.mem_map]
+  exact Or.inr ⟨t, hdue, rfl⟩
+
+/-- **Cancelling an armed timer** (one critical section): exactly that handler is queued with `canceled`,
+behind everything already queued, and the timer is disarmed (so `run_one` cannot also expire it). -/
+theorem cancel_timer_completes_canceled (s : St) (slot : Nat) (t : Timer)
+    (h : s.timers.find? (·.slot == slot) = some t) :
+    (opStep s (.cancelTimer slot)).queue = s.queue ++ [.ev t.tok .canceled 0] ∧
+    (opStep s (.cancelTimer slot)).timers = removeSlot slot s.timers := by
+  simp [opStep, h]
+
+/-- **Cancelling / closing a descriptor**: the canceler body (run directly when the loop is not polling,
+else queued as a functor and run by the drain loop) queues both armed handlers with `canceled` and leaves
+both slots empty and the registration cleared; and `cancel_io_events` skips it only when nothing is armed
+and nothing is queued. -/
+theorem cancel_io_completes_canceled (s : St) (fd : Nat) :
+    (cancelerBody s fd).queue = s.queue ++ optItem (ioGet s.map fd).rd .canceled ++ optItem (ioGet s.map fd).wr .canceled
+    ∧ ioGet (cancelerBody s fd).map fd = {}
+    ∧ (cancelNeeded s fd = false → (ioGet s.map fd).rd = none ∧ (ioGet s.map fd).wr = none)
+    ∧ (cancelNeeded s fd = true → (s.polling || !s.reactorUp) = false → opStep s (.cancelIo (some fd)) = cancelerBody s fd)
+    ∧ (cancelNeeded s fd = true → (s.polling || !s.reactorUp) = true → opStep s (.cancelIo (some fd)) = push s (.canceler fd)) := by
+  refine ⟨rfl, ?_, ?_, ?_, ?_⟩
+  · unfold cancelerBody
+    simp [ioGet_ioSet, afterTake, Gen.cancelerReadableMoves, Gen.cancelerWriteableMoves]
+  · intro h
+    unfold cancelNeeded at h
+    split at h
+    · cases h
+    · simp at h
+      exact ⟨h.1.2, h.2⟩
+  · intro h1 h2; simp [opStep, h1, h2]
+  · intro h1 h2; simp [opStep, h1, h2]
+
+/-- **The code a completion was queued with is the code it is invoked with**: popping moves the head of the
+queue unchanged into the loop thread's local, and the next step of the loop thread logs exactly it. -/
+theorem queued_code_is_final (s : St) (i i' : LoopInp) (q : QItem) (rest : List QItem)
+    (hq : s.queue = q :: rest) (hp : s.phase = .draining) (hs : s.stop = false) (hc : s.counter > 0) :
+    (loopStep s i).running = some q ∧ (loopStep s i).queue = rest ∧
+    (match q with
+     | .ev t c n => (loopStep (loopStep s i) i').log = s.log ++ [⟨t, c, n, s.clock⟩]
+     | .fn t => (loopStep (loopStep s i) i').log = s.log ++ [⟨t, .ok, 0, s.clock⟩]
+     | _ => True) := by
+  have h1 : loopStep s i = { s with queue := rest, running := some q, phase := .executing } := by
+    simp [loopStep, hp, hq, hs, hc]
+  refine ⟨by rw [h1], by rw [h1], ?_⟩
+  cases q with
+  | fn t => rw [h1]; simp [loopStep, execItem]
+  | ev t c n => rw [h1]; simp [loopStep, execItem]
+  | setter fd e t => trivial
+  | canceler fd => trivial
+
+/-- **A reported event dispatches the armed handler**: if poll reports descriptor `fd` readable (or in error)
+and a readable handler is armed, it is queued — with success, or `select_failed` for an error event — and the
+slot is emptied; same for writeable. -/
+theorem ready_dispatches (s : St) (e : Event) (t : Tok) (hsel : e.selOk = true) :
+    ((ioGet s.map e.fd).rd = some t → (e.rd = true ∨ e.err = true) →
+        QItem.ev t (if e.err then .selectFailed else .ok) 0 ∈ (dispatchFd s e).queue ∧
+        (ioGet (dispatchFd s e).map e.fd).rd = none) ∧
+    ((ioGet s.map e.fd).wr = some t → (e.wr = true ∨ e.err = true) →
+        QItem.ev t (if e.err then .selectFailed else .ok) 0 ∈ (dispatchFd s e).queue ∧
+        (ioGet (dispatchFd s e).map e.fd).wr = none) := by
+  constructor
+  · intro hrd hev
+    unfold dispatchFd
+    simp only [ioGet_ioSet, hsel, hrd]
+    rcases hev with hev | hev <;> simp [hev, optItem, afterTake, Gen.dispatchReadableMoves]
+  · intro hwr hev
+    unfold dispatchFd
+    simp only [ioGet_ioSet, hsel, hwr]
+    rcases hev with hev | hev <;> simp [hev, optItem, afterTake, Gen.dispatchWriteableMoves]
+
+/-! ## exactly once, if the loop keeps running -/
+
+/-- **Exactly once under fairness.**  Take any reachable state in which the loop has not been stopped and a
+completion `q` (a posted handler, or an event handler with its code: success because its event happened,
+`canceled` because it was cancelled, an error) sits in the dispatch queue with `k` items in front of it.
+Let the history continue in any way such that nobody calls `stop()`/`reset()` and the loop thread gets to
+take a step after every finite batch of other threads' operations (`fairActs`), at least `2k+6` times.
+Then `q` has been invoked with exactly the arguments it was queued with — and, by `at_most_once`, exactly
+once. -/
+theorem exactly_once_if_running (as : List Act) (q : QItem) (k : Nat) (rounds : List (List Op × LoopInp))
+    (hq : ∃ pre post, (run init as).queue = pre ++ q :: post ∧ pre.length = k)
+    (hlive : (run init as).stop = false ∧ (run init as).phase ≠ .stopped ∧ (run init as).phase ≠ .failed)
+    (hlen : 2 * k + 6 ≤ rounds.length)
+    (ho : ∀ r ∈ rounds, ∀ o ∈ r.1, KeepsRunning o) :
+    logged q (run init (as ++ fairActs rounds)) ∧
+    (∀ t c n, q = .ev t c n → calls t.id (run init (as ++ fairActs rounds)) = 1) ∧
+    (∀ t, q = .fn t → calls t.id (run init (as ++ fairActs rounds)) = 1) := by
+  have hlog : logged q (run init (as ++ fairActs rounds)) := by
+    rw [run_append]
+    exact fair_progress_loop q (2 * k + 6) rounds _ (some k) hq hlive (need_le _ k) hlen ho
+  have hone : ∀ (t : Tok) (e : LogEntry), e.tok = t → e ∈ (run init (as ++ fairActs rounds)).log →
+      calls t.id (run init (as ++ fairActs rounds)) = 1 := by
+    intro t e het he
+    have hle := at_most_once (as ++ fairActs rounds) t.id
+    have hpos : 1 ≤ calls t.id (run init (as ++ fairActs rounds)) := by
+      unfold calls cnt
+      apply List.countP_pos_iff.2
+      exact ⟨e.tok, List.mem_map.2 ⟨e, he, rfl⟩, by simp [het]⟩
+    omega
+  refine ⟨hlog, ?_, ?_⟩
+  · intro t c n hqe
+    rw [hqe] at hlog
+    obtain ⟨clk, hc⟩ := hlog
+    exact hone t _ rfl hc
+  · intro t hqe
+    rw [hqe] at hlog
+    obtain ⟨clk, hc⟩ := hlog
+    exact hone t _ rfl hc
+
+example : ∃ pre post, (run init [.op .post, .op .post]).queue = pre ++ QItem.fn ⟨1, .plain⟩ :: post ∧ pre.length = 1 :=
+  ⟨[.fn ⟨0, .plain⟩], [], rfl, rfl⟩
+
+/-! ## thread pool -/
+
+/-- **Job conservation**: after any history of posts, cancels, stops and worker steps (any number of
+workers, any interleaving), every job id issued so far is in exactly one place: queued, held by the worker
+that popped it, started (`ran`), or cancelled-with-`true`. -/
+theorem job_conservation (n : Nat) (ops : List PoolOp) (id : Int) :
+    pc id (poolRun (poolInit n) ops) = if 0 ≤ id ∧ id < ((poolRun (poolInit n) ops).jobId : Int) then 1 else 0 :=
+  poolConserved_run ops _ (poolConserved_init n) id
+
+/-- **A job runs at most once.** -/
+theorem job_at_most_once (n : Nat) (ops : List PoolOp) (id : Int) :
+    jcnt id (poolRun (poolInit n) ops).ran ≤ 1 := by
+  have := job_conservation n ops id
+  unfold pc at this
+  split at this <;> omega
+
+/-- **A job for which `cancel` returned true never runs** — neither before the cancel (it was still queued)
+nor in any continuation of the history. -/
+theorem cancel_true_never_runs (n : Nat) (ops more : List PoolOp) (id : Int)
+    (htrue : (poolRun (poolInit n) ops).queue.any (·.id == id) = true) :
+    jcnt id (poolRun (poolInit n) (ops ++ [.cancel id] ++ more)).ran = 0 := by
+  have hmono : ∀ (l : List PoolOp) (p : Pool), icnt id p.cancelled ≤ icnt id (poolRun p l).cancelled := by
+    intro l
+    induction l with
+    | nil => intro p; exact Nat.le_refl _
+    | cons o os ih =>
+      intro p
+      simp only [poolRun, List.foldl_cons]
+      refine Nat.le_trans ?_ (ih _)
+      cases o with
+      | cancel k => simp only [poolStep]; split <;> simp
+      | post th => exact Nat.le_refl _
+      | stop => exact Nat.le_refl _
+      | workerTake w =>
+        simp only [poolStep]
+        split
+        · split
+          · exact Nat.le_refl _
+          · split <;> exact Nat.le_refl _
+        · exact Nat.le_refl _
+      | workerRun w =>
+        simp only [poolStep]
+        split
+        · split <;> exact Nat.le_refl _
+        · exact Nat.le_refl _
+  have h1 : 1 ≤ icnt id (poolRun (poolInit n) (ops ++ [.cancel id])).cancelled := by
+    simp only [poolRun, List.foldl_append, List.foldl_cons, List.foldl_nil]
+    have : (List.foldl poolStep (poolInit n) ops).queue.any (·.id == id) = true := htrue
+    simp [poolStep, this, icnt]
+  have h2 : 1 ≤ icnt id (poolRun (poolInit n) (ops ++ [.cancel id] ++ more)).cancelled := by
+    have := hmono more (poolRun (poolInit n) (ops ++ [.cancel id]))
+    have e : poolRun (poolRun (poolInit n) (ops ++ [.cancel id])) more = poolRun (poolInit n) (ops ++ [.cancel id] ++ more) := by
+      simp [poolRun, List.foldl_append]
+    rw [e] at this
+    omega
+  have := job_conservation n (ops ++ [.cancel id] ++ more) id
+  unfold pc at this
+  split at this <;> omega
+
+/-- **An exception escaping a job does not stop the pool**: whatever the job does, the worker that ran it
+has not exited, is idle again (its next step is the normal shutdown-test/pop), and the shutdown flag is
+untouched. -/
+theorem exception_does_not_stop_pool (p : Pool) (w : Nat) (j : Job) (h : p.workers.getD w none = some j) :
+    (poolStep p (.workerRun w)).exited = p.exited ∧ (poolStep p (.workerRun w)).workers = p.workers.set w none
+    ∧ (poolStep p (.workerRun w)).shutDown = p.shutDown ∧ (poolStep p (.workerRun w)).ran = p.ran ++ [j]
+    ∧ (poolStep p (.workerRun w)).queue = p.queue := by
+  simp only [poolStep]
+  rw [h]
+  simp [Gen.workerCatchesAll]
+
+/-- **Exactly once if the pool keeps running and the job is not cancelled** (fairness): a job queued with at
+most `i` jobs in front of it has run exactly once after `i+1` take/run cycles of any live idle worker `w`,
+whatever clients post and whichever *other* jobs they cancel in between (also when jobs in front of it
+throw). -/
+theorem exactly_once_if_running_and_not_cancelled (n : Nat) (ops : List PoolOp) (j : Job) (w i : Nat)
+    (rounds : List (List PoolOp))
+    (hr : Ready w (poolRun (poolInit n) ops)) (hq : QueuedWithin j i (poolRun (poolInit n) ops))
+    (hlen : i + 1 ≤ rounds.length) (ho : ∀ ext ∈ rounds, ∀ o ∈ ext, ClientOp j.id o) :
+    jcnt j.id (fairRun w (poolRun (poolInit n) ops) rounds).ran = 1 := by
+  have h1 := fair_progress j w i rounds _ hr hq hlen ho
+  -- the fair run is itself a history from the initial pool, so conservation bounds the count by one
+  have hhist : ∀ (rs : List (List PoolOp)) (p : Pool), PoolConserved p → PoolConserved (fairRun w p rs) := by
+    intro rs
+    induction rs with
+    | nil => intro p hp; exact hp
+    | cons ext more ih =>
+      intro p hp
+      simp only [fairRun]
+      exact ih _ (poolConserved_step _ _ (poolConserved_step _ _ (poolConserved_run ext p hp)))
+  have h2 := hhist rounds _ (poolConserved_run ops _ (poolConserved_init n)) j.id
+  unfold pc at h2
+  split at h2 <;> omega
+
+example : Ready 0 (poolRun (poolInit 1) [.post true, .post false]) ∧
+    QueuedWithin ⟨1, false⟩ 1 (poolRun (poolInit 1) [.post true, .post false]) := by
+  refine ⟨⟨rfl, by decide, rfl, rfl⟩, ⟨[⟨0, true⟩], [], rfl, by decide⟩⟩
 
 end Cppcms.C17.Props
